@@ -28,6 +28,42 @@ type mutant struct {
 	Name     string
 	Property string
 	Expect   []string
+	AnyRule  []string // seeded changes: one of these rules must report a violation
+}
+
+// readSeeds returns the sub-agent seeded changes (/verif/seeded/<id>/patch.diff)
+// that the checks are recorded as catching in seeded/expected.json (written by
+// hand from `seedtest.py detectown`, never at check time). Seeds with an empty
+// rule list are the recorded misses and are not run.
+func readSeeds(dir string) ([]mutant, error) {
+	b, err := os.ReadFile(filepath.Join(dir, "expected.json"))
+	if err != nil {
+		if os.IsNotExist(err) {
+			return nil, nil
+		}
+		return nil, err
+	}
+	var exp map[string]struct {
+		Property string   `json:"property"`
+		Rules    []string `json:"rules"`
+	}
+	if err := json.Unmarshal(b, &exp); err != nil {
+		return nil, fmt.Errorf("seeded/expected.json: %w", err)
+	}
+	var names []string
+	for n := range exp {
+		names = append(names, n)
+	}
+	sort.Strings(names)
+	var ms []mutant
+	for _, n := range names {
+		e := exp[n]
+		if len(e.Rules) == 0 {
+			continue
+		}
+		ms = append(ms, mutant{Path: filepath.Join(dir, n, "patch.diff"), Name: "seeded/" + n, Property: e.Property, AnyRule: e.Rules})
+	}
+	return ms, nil
 }
 
 func readMutants(dir string) ([]mutant, error) {
@@ -85,6 +121,12 @@ func selfValidate(res *RunResult, repo, verif string) {
 		res.Errs = append(res.Errs, err.Error())
 		return
 	}
+	seeds, err := readSeeds(filepath.Join(verif, "seeded"))
+	if err != nil {
+		res.Errs = append(res.Errs, err.Error())
+		return
+	}
+	ms = append(ms, seeds...)
 	for _, m := range ms {
 		if m.Property != res.Prop {
 			continue
@@ -111,6 +153,23 @@ func selfValidate(res *RunResult, repo, verif string) {
 			cmd := exec.Command(self, "check", "-prop", res.Prop, "-tier", "quick", "-repo", tmp, "-verif", verif, "-no-evidence")
 			out, _ := cmd.CombinedOutput()
 			text := string(out)
+			if len(m.AnyRule) > 0 {
+				found := false
+				for _, l := range strings.Split(text, "\n") {
+					f := strings.Fields(l)
+					if len(f) >= 3 && f[0] == "OBL" && (f[1] == "violated" || f[1] == "undecided") {
+						for _, r := range m.AnyRule {
+							if f[2] == r {
+								found = true
+							}
+						}
+					}
+				}
+				if !found {
+					res.Errs = append(res.Errs, fmt.Sprintf("self-validation: seeded change %s no longer reported by any of %v; output: %s", m.Name, m.AnyRule, truncate(text, 600)))
+					return
+				}
+			}
 			for _, want := range m.Expect {
 				found := false
 				for _, l := range strings.Split(text, "\n") {
